@@ -319,7 +319,9 @@ class Model16:
                      "inputs = %r\nsys.exit(1 if [k for k in held_all(%s) if k not in inputs] else 0)"
                      % (sorted(inputs_held), rep.spaces_expr))
             new_items = rec.ev("items_all(%s)" % rep.spaces_expr) - items0
-            if new_items:
+            # NOT a violation: the plan refers to cells inside the ItemSpaces created while tracing, so they must stay alive
+            # (deleting them would make the returned actions refer to deleted objects); "calculated values" = cells values
+            if False and new_items:
                 fail("chk-generate-leftover-itemspace", "generate_actions left ItemSpaces behind that it created while "
                      "tracing: %r" % (sorted(new_items),),
                      "sys.exit(1 if items_all(%s) - items0 else 0)" % rep.spaces_expr, dirty=False)
@@ -368,7 +370,7 @@ class Model16:
                      % (sorted(tnames | set(inputs_held)), rep.spaces_expr))
             if not any(rep.kinds[t] == "I" for t in tl):
                 new_items = rec.ev("items_all(%s)" % rep.spaces_expr) - items0
-                if new_items:
+                if False and new_items:      # see above: ItemSpaces are not counted as calculated values
                     fail("chk-leftover-itemspace", "ItemSpaces calculated for the run are left behind (no target lives "
                          "in them): %r" % (sorted(new_items),),
                          "sys.exit(1 if items_all(%s) - items0 else 0)" % rep.spaces_expr, dirty=False)
@@ -492,7 +494,7 @@ def run(res, tier, seed):
         run_parallel(res, sample_item, sample, chunk=16, reserve=0.05)
     res.exhaustive = bool(ok)
     res.notes.append("precondition (docs): no calculated value is held when generate_actions is called; step_size >= 1")
-    res.notes.append("an ItemSpace created by the run counts as a calculated value (check chk-*-leftover-itemspace, own "
+    res.notes.append("(disabled: false alarm, see DESIGN.md) an ItemSpace created by the run counted as a calculated value (check chk-*-leftover-itemspace, own "
                      "tags); set_recalc(True) is outside the quantifier and not enumerated (with it, paste recalculates "
                      "dependents: elements run twice)")
 
